@@ -264,6 +264,10 @@ class SmiV2Lexer(AbstractLexer):
             lineno=t.lineno)
         # t.lexer.skip(1)
 
+    # the exclusive states need error rules of their own, otherwise ply
+    # raises its own LexError (e.g. MACRO body without END)
+    t_macro_error = t_choice_error = t_exports_error = t_comment_error = t_error
+
 
 class SupportSmiV1Keywords(object):
     @staticmethod
